@@ -5,6 +5,7 @@ import (
 	"sync"
 
 	"github.com/ajitpratap0/GoSQLX/pkg/metrics"
+	"github.com/ajitpratap0/GoSQLX/pkg/sql/keywords"
 )
 
 // bufferPool is used to reuse bytes.Buffer instances during tokenization.
@@ -107,10 +108,17 @@ func GetTokenizer() *Tokenizer {
 //   - Position tracking reset to initial state
 //   - Line tracking cleared but capacity preserved
 //   - Debug logger cleared
-//   - Keywords preserved (immutable configuration)
+//   - Keywords and dialect back to the defaults of New() if the holder changed them
 func PutTokenizer(t *Tokenizer) {
 	if t != nil {
 		t.Reset()
+		// Dialect and keywords are configuration of the holder that chose them:
+		// the next holder gets the defaults of New(), as from an empty pool.
+		if t.configured {
+			t.keywords = keywords.NewKeywords()
+			t.dialect = keywords.DialectPostgreSQL
+			t.configured = false
+		}
 		tokenizerPool.Put(t)
 
 		// Record pool return
